@@ -208,9 +208,9 @@ CHECKS.update({
         note="Trusted: Lean kernel + Mathlib analysis; the translator bench2lean.py (AST of benchmarks.py to Lean terms); Float twin comparison with a tolerance (libm).",
         technique="source-to-Lean translator + Lean 4 proof (HasDerivAt in Mathlib) + Float-twin differential", design_ref="DESIGN.md §4 C19"),
     "C20": dict(
-        text="Theorems: error_is_users (any error of the driver model is one a user callable returned), no_handler_reaches_user (table of every try/except of "
-             "the package regenerated by translate/handlers2lean.py: no handler that can reach a user callable swallows), no_residue (kernel-evaluated over the state tables regenerated by translate/state2lean.py: no module global and no mutable default is written by any function of the package); one fault per (callable "
-             "kind, call index) injected in real runs: the very exception object must reach the caller, the faulted run is replayed through the model, and an "
+        text="Theorems: error_is_users (any error of the driver model is one a user callable returned), handlers_transparent / no_swallowing_handler_reaches_user (table of every try/except of "
+             "the package regenerated by translate/handlers2lean.py: every handler that can reach a user callable only re-raises the caught exception object, directly or through a private carrier unwrapped again; none swallows), no_residue (kernel-evaluated over the state tables regenerated by translate/state2lean.py: no module global and no mutable default is written by any function of the package); one fault per (callable "
+             "kind, call index) injected in real runs: the very exception object must reach the caller, the faulted run is replayed through the model, and process-wide settings (numpy error handling, warnings filters, logging) are unchanged by the failing run, and an "
              "identical fault-free call afterwards equals the baseline.",
         note=SHELL_NOTE, technique="Lean 4 proof (Except-monad frame reasoning) + source-to-Lean translator of exception handlers + fault-injection differential",
         design_ref="DESIGN.md §4 C20"),
